@@ -2413,7 +2413,7 @@ package sarama
 //@   loop 0: invariant bp.buffer != nil && bp.parent == old(bp.parent)
 //@   loop 1: invariant bp.buffer != nil && bp.parent == old(bp.parent)
 //@   nosafety
-//@   modifies $chan, bp.buffer, bp.timer, bp.timerFired, bp.closing, produceSet.handled, produceSet.bufferBytes, produceSet.bufferCount, produceSet.msgs, produceSet.swept, partitionSet.bufferBytes, partitionSet.msgs, ProducerMessage.disp, ProducerMessage.errEvents, ProducerMessage.succEvents, ProducerMessage.flags, ProducerMessage.retries, ProducerMessage.sequenceNumber, ProducerMessage.producerEpoch, ProducerMessage.hasSequence, ProducerMessage.Offset, ProducerMessage.Timestamp, transactionManager.producerEpoch, $wg, maps
+//@   modifies $chanclosed, bp.buffer, bp.timer, bp.timerFired, bp.closing, produceSet.handled, produceSet.bufferBytes, produceSet.bufferCount, produceSet.msgs, produceSet.swept, partitionSet.bufferBytes, partitionSet.msgs, ProducerMessage.disp, ProducerMessage.errEvents, ProducerMessage.succEvents, ProducerMessage.flags, ProducerMessage.retries, ProducerMessage.sequenceNumber, ProducerMessage.producerEpoch, ProducerMessage.hasSequence, ProducerMessage.Offset, ProducerMessage.Timestamp, transactionManager.producerEpoch, $wg, maps
 //@ func (bp *brokerProducer) run() props C16 C05
 //@   callsite brokerProducer.rollOver: effect bp.rolls == old(bp.rolls) + 1
 //@   callsite brokerProducer.rollOver: modifies bp.rolls
